@@ -77,7 +77,7 @@ def isgraphC (i : Int) : Bool := decide (33 ≤ i ∧ i ≤ 126)
 inductive Src where
   | int (v : Int)
   | flt (x : FVal)
-  deriving Repr
+  deriving Repr, DecidableEq
 
 /-- one guard operand on an integer source value -/
 def Atom.evalI (a : Atom) (v : Int) : Res Bool :=
@@ -220,6 +220,27 @@ def conv (src tgt : Ty) (s : Src) (dest : Bool) : Res (Option Out × Nat) :=
     | .ok (none, n) => .ok (none, n)
     | .err e => .err e
     | .null => .null | .oob => .oob | .fault => .fault
+
+/-- `mpt_value_argv(buf, 16, code, va)` as used by the vararg iterator (`mpt_process_vararg`): the caller passed a
+    value of type `src` after the default argument promotions; it is fetched with `va_arg(va, A)`, stored as `S`,
+    and the iterator hands the buffer out as a value of type `src`.  A code without its own case is fetched as
+    the integer type of the same size (`mpt_type_int(traits->size)`), if there is one. -/
+def argvRow (src : Ty) : Option (CTy × CTy × Nat) :=
+  match Generated.argvTable.find? (·.1 = src.code) with
+  | some (_, st, va, n) => some (st, va, n)
+  | none =>
+    match Generated.typeInt.find? (·.1 = (tgtCTy src).size) with
+    | some (_, code) => (Generated.argvTable.find? (·.1 = code)).map fun r => (r.2.1, r.2.2.1, r.2.2.2)
+    | none => none
+
+def argvPass (src : Ty) (s : Src) : Res Src :=
+  match argvRow src with
+  | none => .err .BadType
+  | some (st, va, _) =>
+    if st.size ≠ (tgtCTy src).size then .fault else
+    match s with
+    | .int v => if st.isFloat ∨ va.isFloat then .fault else .ok (.int (wrap (tgtCTy src) (wrap st (wrap va v))))
+    | .flt x => if st.isFloat ∧ va.isFloat then .ok (.flt (round st.fmt (round va.fmt x))) else .fault
 
 /-- accept / refuse / undefined behaviour -/
 inductive Verdict where
